@@ -153,6 +153,22 @@ def check_version_get(ctx):
     inc = [e for b, i, e in fe.events("inc") if key(e["x"]) == "level"]
     ctx.check(lv == [("=", "1")] and len(inc) == 1 and inc[0]["op"] == "++", "T1-level-order", "ascending", fe.name, fe.loc,
               "deeper levels are searched in ascending order starting at 1", "level loop changed: %s" % lv)
+    # the key that selects the file in a sorted level is the lookup key itself (user key + the
+    # reader's sequence): versions of one user key can straddle two files of a level
+    ff = [e for b, i, e in find_calls(fe, ("find_file", "ldb_find_file"))]
+    ctx.check(len(ff) == 1 and argkey(ff[0], 2) == "internal_key" and argkey(ff[0], 1) == "&ver->files[level]", "T6-lookup-key",
+              "file-selection", fe.name, fe.loc, "find_file is driven by the caller's internal key",
+              "file selection key is %s" % [argkey(e, 2) for e in ff])
+    ctx.check([p["n"] for p in fe.params][:3] == ["ver", "user_key", "internal_key"], "T6-lookup-key", "params", fe.name, fe.loc,
+              "the overlap walk receives both the user key and the internal key", "parameters changed: %s" % [p["n"] for p in fe.params])
+    vg0 = ctx.fn("ldb_version_get", VS)
+    c0 = one_call(ctx, vg0, "ldb_version_for_each_overlapping")[0][2]
+    ctx.check(argkey(c0, 1) == "&state.saver.user_key" and argkey(c0, 2) == "&state.ikey", "T6-lookup-key", "version_get-args", vg0.name,
+              site(vg0, c0), "the walk is given the lookup's own user key and internal key", "walk arguments are %s" % [argkey(c0, k) for k in (1, 2)])
+    gm0 = ctx.fn("getstate_match", VS)
+    tg0 = one_call(ctx, gm0, "ldb_tables_get")[0][2]
+    ctx.check(argkey(tg0, 4) == "&state->ikey", "T6-lookup-key", "table-lookup-key", gm0.name, site(gm0, tg0),
+              "the table is searched with the same internal key", "table lookup key is %s" % argkey(tg0, 4))
     # getstate_match: saver state switch
     gm = ctx.fn("getstate_match", VS)
     sw, cases, dflt = c13.switch_cases(gm, "state->saver.state")
